@@ -48,7 +48,7 @@ def profile(tier, rng):
     return R.Profile(allow=R.HAZARDS, max_depth=8 if tier == "quick" else rng.choice([8, 12]),
                      ops={"extend": 4, "wextend": 1, "owextend": 1, "project": 1, "select_rows": 2, "select_columns": 3,
                           "drop_columns": 3, "rename_columns": 2, "map_columns": 2, "order_rows": 4, "natural_join": 2,
-                          "concat_rows": 1}, self_join_p=0.1, final_order_p=0.0)
+                          "concat_rows": 1}, self_join_p=0.1, final_order_p=0.0, pair_keys_p=0.25)
 
 
 # ------------------------------------------------------------------ reference rule evaluator
